@@ -147,10 +147,10 @@ def run_c03(t, tier, res):
     res.digest = digest_of([sorted(strings)[:200], n, round(mass, 12), [v.as_dict() for v in res.violations]])
 
 
-def make_scorer(rdir):
+def make_scorer(rdir, limit=0):
     from lib_scorer.grammar_io import load_grammar
     from lib_scorer.pcfg_password_scorer import PCFGPasswordScorer
-    sc = PCFGPasswordScorer(limit=0)
+    sc = PCFGPasswordScorer(limit=limit)
     if not load_grammar(sc, rdir):
         return None
     sc.create_multiword_detector()
@@ -183,7 +183,9 @@ def run_c13(t, tier, res):
         return
     with guesser.streams():
         try:
-            sc = make_scorer(tr.rule_dir)
+            limit = t.choice([0, 0, 1e-09, 1e-05, 0.01, 0.3])      # password_scorer.py --limit
+            sc = make_scorer(tr.rule_dir, limit)
+            res.stats["scorer_limit_%g" % limit] += 1
         except Exception:
             import traceback
             res.violate("C13", "scorer_cannot_load", {"exception": traceback.format_exc()[-700:], "encoding": opts["encoding"]})
